@@ -3,7 +3,7 @@
 use super::c02::obs_of;
 use super::stream_graph;
 use super::window;
-use crate::cases::{run_case, Case, Fmt, Hex, Opts, RawH, RawOp, Rd, Sk};
+use crate::cases::{run_case, Case, Fmt, Hex, Opts, RawH, RawOp, Rd, SOp, Sk};
 use crate::common::{brief_bytes, Ctx, Tier};
 use crate::explore::par_for;
 use crate::refmodel::enc::{self, prog_str, Sym};
@@ -182,6 +182,107 @@ pub fn run(tier: Tier) -> i32 {
         }
     }
 
+    // ---------------------------------------------------------------- header dictionary field below 4096: the window in effect is 4096 bytes
+    {
+        let name = "public/header-dict-below-4096";
+        if ctx.may_start(name) {
+            let t0 = Instant::now();
+            let mut items = Vec::new();
+            for &total in &[0usize, 600, 1001, 3000, 4095, 4096, 4097, 9000] {
+                for hdr in [0u32, 1, 16, 512, 999, 4095] {
+                    let need = total.min(4096) as u64;
+                    let mut ms: Vec<u64> = vec![0, hdr as u64, hdr as u64 + 1, 1000, 1500, 2999, 3000, 4095, 4096, need.saturating_sub(1), need, need + 1, u64::MAX];
+                    ms.sort_unstable();
+                    ms.dedup();
+                    for m in ms {
+                        items.push((total, hdr, m));
+                    }
+                }
+            }
+            par_for(items.len() as u64, |i| {
+                let (total, hdr, m) = items[i as usize];
+                let prog = grow(total);
+                let e = enc::encode(3, 0, 2, 4096, &prog);
+                assert!(e.bad.is_none() && e.expect.len() == total);
+                let need = total.min(4096) as u64;
+                let file = enc::lzma_file(3, 0, 2, hdr, Some(total as u64), &e.payload);
+                let ml = if m == u64::MAX { None } else { Some(m) };
+                ctx.eval(2);
+                ctx.nontriv(2);
+                ctx.traces.fetch_add(2, Ordering::Relaxed);
+                let what = format!("header dictionary field {} (window in effect 4096), {} output bytes, limit {}: needed window {} => {}", hdr, total, m, need, if need <= m { "Ok, identical to unlimited" } else { "Err, delivered bytes a prefix" });
+                let case = Case::Dec { fmt: Fmt::Lzma, opts: Opts { memlimit: ml, ..Opts::default() }, input: Hex(file.clone()), rd: Rd::default(), sk: Sk::default() };
+                let o = run_case(&case);
+                let ok = if need <= m { o.v.is_ok() && o.out.0 == e.expect } else { o.v.is_err() && e.expect.starts_with(&o.out.0) };
+                if !ok {
+                    ctx.violation(&case, &what, &o, None);
+                    return;
+                }
+                // the streaming decoder, input written 7 bytes at a time
+                let mut ops: Vec<SOp> = file.chunks(7).map(|c| SOp::WriteAll(Hex(c.to_vec()))).collect();
+                ops.push(SOp::Finish);
+                let case = Case::Stream { opts: Opts { memlimit: ml, ..Opts::default() }, sk: Sk::default(), ops };
+                let o = run_case(&case);
+                let ok = if need <= m { o.v.is_ok() && o.out.0 == e.expect } else { o.ops.iter().any(|r| r.v.is_err()) && e.expect.starts_with(&o.out.0) };
+                if !ok {
+                    ctx.violation(&case, &format!("Stream: {}", what), &o, None);
+                }
+            });
+            ctx.scope_done(name, items.len() as u64, t0, "header field 0/1/16/512/999/4095 x limits below and above it, one-shot and Stream");
+        }
+    }
+    // ---------------------------------------------------------------- a window that wraps needs no more memory than one that is about to wrap
+    {
+        let name = "public/wrap-does-not-grow-heap";
+        if ctx.may_start(name) {
+            let t0 = Instant::now();
+            let mut items = Vec::new();
+            for dict in [4096u32, 5000, 6144] {
+                for total in [dict as usize, dict as usize + 1, 2 * dict as usize + 7, 3 * dict as usize + 10] {
+                    for m in [dict as u64, dict as u64 + 1, dict as u64 + 1500, 2 * dict as u64 - 200] {
+                        for stream in [false, true] {
+                            items.push((dict, total, m, stream));
+                        }
+                    }
+                }
+            }
+            par_for(items.len() as u64, |i| {
+                let (dict, total, m, stream) = items[i as usize];
+                let reserve = 3 * dict as usize + 128;
+                let mk = |n: usize| -> (Case, Vec<u8>) {
+                    let e = enc::encode(3, 0, 2, dict as u64, &grow(n));
+                    let file = enc::lzma_file(3, 0, 2, dict, Some(n as u64), &e.payload);
+                    let opts = Opts { memlimit: Some(m), ..Opts::default() };
+                    let sk = Sk { reserve, ..Sk::default() };
+                    if stream {
+                        (Case::Stream { opts, sk, ops: vec![SOp::WriteAll(Hex(file)), SOp::Finish] }, e.expect)
+                    } else {
+                        (Case::Dec { fmt: Fmt::Lzma, opts, input: Hex(file), rd: Rd::default(), sk }, e.expect)
+                    }
+                };
+                let (wrap, expect) = mk(total);
+                let (nowrap, _) = mk(dict as usize - 1);
+                let a = run_case(&wrap);
+                let b = run_case(&nowrap);
+                ctx.eval(2);
+                ctx.nontriv(1);
+                ctx.traces.fetch_add(2, Ordering::Relaxed);
+                if !(a.v.is_ok() && a.out.0 == expect && b.v.is_ok()) {
+                    ctx.violation(&wrap, &format!("dict {} limit {}: {} output bytes decode Ok (limit >= dictionary size)", dict, m, total), &a, None);
+                    return;
+                }
+                // history in the no-wrap run: dict-1 bytes; the wrapping run may hold at most m bytes of history
+                let allowed = b.peak_heap + (m as usize - (dict as usize - 1)) + 64;
+                if a.peak_heap > allowed {
+                    ctx.violation(&wrap, &format!("dict {} limit {}: peak heap while decoding {} bytes (window wraps) <= peak heap while decoding {} bytes (window one byte short of wrapping) {} + (limit - {}) + 64 = {}; sink capacity reserved up front in both runs", dict, m, total, dict - 1, b.peak_heap, dict - 1, allowed), &a, None);
+                }
+                if i % 17 == 0 {
+                    ctx.sample(json!({"scope": name, "dict": dict, "limit": m, "stream": stream, "output_bytes": total, "peak_heap_wrapping": a.peak_heap, "peak_heap_not_wrapping": b.peak_heap}));
+                }
+            });
+            ctx.scope_done(name, items.len() as u64, t0, "peak heap of a wrapping decode vs a decode of dict-1 bytes under the same limit, one-shot and Stream");
+        }
+    }
     // ---------------------------------------------------------------- header announces 64 MiB dictionary and size: nothing may be set aside beyond the limit
     {
         let name = "public/announced-64MiB/absolute-heap";
